@@ -43,6 +43,9 @@ def plan(tier, seed):
     specs.append({'kind': 'skeleton', 'seed': seed, 'slice': k, 'parts': 16,
                   'tier': tier, 'hashseed': (seed * 16 + k + 7) % 4294967295})
   specs.append({'kind': 'closures', 'seed': seed, 'hashseed': seed % 4294967295, 'tier': tier})
+  for k in range(8):
+    specs.append({'kind': 'trymatrix', 'seed': seed, 'slice': k, 'parts': 8, 'tier': tier,
+                  'hashseed': (seed * 16 + k + 11) % 4294967295})
   return specs
 
 
@@ -109,6 +112,18 @@ def run_slice(spec):
       if i == 3 and out['verdict'] == 'ok':
         out['sample'] = {'case': cid, 'mode': mode, 'features': feats, 'inputs': inputs[:2],
                          'program': stream.body_of(src)}
+      yield out
+  elif spec['kind'] == 'trymatrix':
+    # nested try statements with two jumps (see vf/gen/trymatrix.py); a sample of the C05 enumeration
+    from vf.gen import trymatrix
+    for k, (cid, src, inputs) in enumerate(trymatrix.cases(spec['seed'] + 1000, spec['slice'], spec['parts'], spec['tier'])):
+      if k >= (100 if spec['tier'] == 'quick' else 1500):
+        break
+      mode = ['to_graph', 'convert', 'via_call'][k % 3]
+      out = judge('C01' + cid, src, inputs[:12], mode, [], reduce=False)
+      out['counters']['nested_try_programs'] = 1
+      if out['verdict'] == 'ok':
+        out['sig'] = cid
       yield out
   elif spec['kind'] == 'closures':
     for k, (cid, src, inputs) in enumerate(closures.cases()):
